@@ -764,8 +764,30 @@ func detOutputs(seed uint64, count int) []string {
 				g.Ligatures[fmt.Sprintf("s%d", (k*5+gi)%11)] = fmt.Sprintf("l%d", k)
 			}
 		}
+		// kerning pairs without effect (adjustment 0) at the front, in the middle and at the end of the list
+		if len(gnames) > 1 {
+			zero := func() *afm.KernPair { return &afm.KernPair{Left: gnames[i%len(gnames)], Right: gnames[(i+1)%len(gnames)], Adjust: 0} }
+			mid := len(m.Kern) / 2
+			kern := append([]*afm.KernPair{zero()}, m.Kern[:mid]...)
+			kern = append(append(kern, zero()), m.Kern[mid:]...)
+			m.Kern = append(kern, zero())
+		}
 		d, _, _ := writeMetrics(m)
 		out = append(out, fmt.Sprintf("afm%d:%x|%v|%v", i, sha256.Sum256(d), m.GlyphList(), m.FontBBoxPDF()))
+		// the same value written again and again
+		for k := 0; k < 3; k++ {
+			if again, _, _ := writeMetrics(m); !bytes.Equal(d, again) {
+				out = append(out, fmt.Sprintf("afm%d-write-%d-of-the-same-value:DIFFERS(%d vs %d bytes)", i, k+2, len(d), len(again)))
+			}
+		}
+		for _, ff := range allFormats {
+			d1, _, _ := writeFont(f, ff)
+			for k := 0; k < 2; k++ {
+				if again, _, _ := writeFont(f, ff); !bytes.Equal(d1, again) {
+					out = append(out, fmt.Sprintf("font%d-%s-write-%d-of-the-same-value:DIFFERS(%d vs %d bytes)", i, formatName(ff), k+2, len(d1), len(again)))
+				}
+			}
+		}
 		{
 			// metrics with degenerate boxes (inverted, NaN: afm.Read accepts them): the union must not depend on the
 			// order in which the glyph map is visited
@@ -802,6 +824,12 @@ func detOutputs(seed uint64, count int) []string {
 		fd2, _, _ := writeFont(f2, type1.FormatNoEExec)
 		fd1, _, _ := writeFont(f, type1.FormatNoEExec)
 		out = append(out, fmt.Sprintf("read2fonts%d:%x", i, sha256.Sum256([]byte(runInput("t1", bytes.NewReader(append(append([]byte{}, fd1...), fd2...)))))))
+		// ... and a file in which two different fonts carry the same /FontName, the second registered under another key
+		f3 := randFont(newRng(r.next()), true)
+		f3.FontInfo.FontName = f.FontInfo.FontName
+		fd3, _, _ := writeFont(f3, type1.FormatNoEExec)
+		fd3 = bytes.Replace(fd3, []byte("dup /FontName get exch definefont pop"), []byte("/Other-Key exch definefont pop"), 1)
+		out = append(out, fmt.Sprintf("read2fonts-samename%d:%x", i, sha256.Sum256([]byte(runInput("t1", bytes.NewReader(append(append([]byte{}, fd1...), fd3...)))))))
 		// history: a write that fails half-way must not influence the next write
 		if i < 3 {
 			for _, ff := range allFormats {
@@ -1066,6 +1094,83 @@ func suiteIsolation(o *suiteOut, r *rng, tier string, n int) {
 			o.emit(line, "skip", true)
 		}
 		o.count("hostile programs")
+	}
+	// programs that fail inside an encrypted section: out of budget, a type error, a stack overflow, a user error handler
+	for i, inner := range []string{"{ 1 pop } loop", "(a) 1 add", "{ 1 } loop", "/p { p } def p", "errordict /typecheck { stop } put (a) 1 add", "foo", "1 0 idiv", "stop"} {
+		cipher := cipherEncrypt(55665, append([]byte{1, 2, 3, 200}, []byte(inner+"\n")...))
+		for _, prog := range [][]byte{append([]byte("currentfile eexec "), cipher...), append([]byte("1 1 3 { pop } for currentfile eexec\n"), []byte(fmt.Sprintf("%X", cipher))...)} {
+			for _, budget := range []int{100000, 7, 50} {
+				runProgram(budget, false, prog)
+			}
+			runInput("t1", bytes.NewReader(append([]byte("%!PS-AdobeFont-1.0: X\n"), prog...)))
+			runInput("cmap", bytes.NewReader(append([]byte("%!PS-Adobe-3.0 Resource-CMap\n"), prog...)))
+		}
+		after := probeResults()
+		line := fmt.Sprintf("iso eexec-failure %d %s", i, hx([]byte(inner)))
+		if after != before {
+			o.fail("C18", "a fresh interpreter and every reader and writer behave as if the failing encrypted section had never been run", line, firstDiff(before, after, true), firstDiff(before, after, false))
+		}
+		o.emit(line, "skip", true)
+		o.count("failures inside an eexec section")
+	}
+	// library calls of every kind between two probes: what one call does with a font, metrics or options value must
+	// not show in calls on other values
+	{
+		of := randFont(newRng(4711), false)
+		om := randMetrics(newRng(4712))
+		calls := []struct {
+			name string
+			fn   func()
+		}{
+			{"WritePDF of another font", func() { of.WritePDF(io.Discard) }},
+			{"Write of another font with every format", func() {
+				for _, ff := range allFormats {
+					of.Write(io.Discard, &type1.WriterOptions{Format: ff})
+				}
+			}},
+			{"Write with nil options, then WritePDF, then nil options", func() { of.Write(io.Discard, nil); of.WritePDF(io.Discard); of.Write(io.Discard, nil) }},
+			{"WritePDF into a failing writer", func() {
+				safeErr(func() error { _, _, err := of.WritePDF(&faultWriter{failCall: 3, shortAt: -1}); return err })
+			}},
+			{"Write into a failing writer", func() {
+				for _, ff := range allFormats {
+					safeErr(func() error { return of.Write(&faultWriter{failCall: 2, shortAt: -1}, &type1.WriterOptions{Format: ff}) })
+				}
+			}},
+			{"AFM Write of other metrics, also into a failing writer", func() {
+				om.Write(io.Discard)
+				safeErr(func() error { return om.Write(&faultWriter{failCall: 2, shortAt: -1}) })
+			}},
+			{"queries on another font and other metrics", func() {
+				of.GlyphList(); of.FontBBox(); of.FontBBoxPDF(); of.WidthsMapPDF(); om.GlyphList(); om.FontBBoxPDF()
+			}},
+			{"reads of damaged files", func() {
+				d, _, _ := writeFont(of, type1.FormatPFB)
+				for _, cut := range []int{1, 7, len(d) / 2, len(d) - 3} {
+					runInput("t1", bytes.NewReader(d[:cut]))
+				}
+				md, _, _ := writeMetrics(om)
+				runInput("afm", bytes.NewReader(md[:len(md)/2]))
+				runInput("cmap", strings.NewReader("/CIDInit /ProcSet findresource begin 12 dict begin begincmap 1 begincidchar <00> endcidchar"))
+			}},
+			{"name look-ups", func() {
+				for _, n := range []string{"uni0041D800", "dalethatafpatah", "f_f_i.alt", "u1F600", "Tcommaaccent", ""} {
+					names.ToUnicode(n, false)
+					names.ToUnicode(n, true)
+				}
+				names.FromUnicode(0x10FFFF)
+			}},
+		}
+		for i, c := range calls {
+			c.fn()
+			after := probeResults()
+			line := fmt.Sprintf("iso libcall %d", i)
+			if after != before {
+				o.fail("C18", "library calls on one value leave every later call on other values as it was ("+c.name+")", line, firstDiff(before, after, true), firstDiff(before, after, false))
+			}
+			o.emit(line, "skip", true)
+			o.count("library calls between two probes")
+		}
 	}
 	o.notes = append(o.notes, "hostile programs (redefining and overwriting system operators, StandardEncoding slots, the CIDInit procedure set, errordict entries, resource categories; failing half-way) run on one interpreter; a probe workload (fresh interpreters on twelve programs incl. a CMap definition, ReadCMap, fonts written in four formats and read back, an independently written font, AFM write/read, name look-ups) is repeated afterwards and must reproduce the results obtained before")
 }
